@@ -213,7 +213,7 @@ def routes_of_config(config, contigs):
     return MAFSORTER_ROUTES if contigs else ["kw-contigs"]
 
 
-def eval_maf(order, contigs, config, cap, specs, canon, route=None, tmp=None):
+def eval_maf(order, contigs, config, cap, specs, canon, route=None, tmp=None, refused_first=None):
     """One MAF sorting (records built from `specs`, added in that order) and the oracle's verdict (shared by run and
     replay_case).  `route` says how (order, contigs) reaches the sorter (None: contigs= keyword / Cls(contigs=...)).
     Returns (where, output texts or None, failures, key sequence or None)."""
@@ -237,6 +237,20 @@ def eval_maf(order, contigs, config, cap, specs, canon, route=None, tmp=None):
         else:
             so = SC.order_obj(order, contigs) if route is None else SC.order_via(route, order, contigs, tmp)
             sorter = Sorter(cap, MafSorterCodec(column_names=list(recs[0].keys()) if recs else ["a"]), so.sort_key())
+        if refused_first:
+            # the caller first offers a record the key function refuses (a line of another layout without a start position,
+            # or on a chromosome the contig list does not know), catches the error and carries on: a refused record
+            # is no part of the collection
+            bad = (SC.untyped_record("T0", "N0", "1", "1", "2", drop=("Start_Position", "Reference_Allele")) if refused_first == "layout"
+                   else SC.untyped_record("T0", "N0", "no-such-contig", "1", "2", drop=("Hugo_Symbol",)))
+            where["refused_first"] = refused_first
+            try:
+                sorter += bad
+            except Exception:  # noqa
+                pass
+            else:
+                sorter.close()
+                return where, None, [], None          # it was accepted: another collection, not this case
         for r in recs:
             sorter += r
         first = list(sorter)
@@ -376,14 +390,17 @@ def maf_cases(ctx, out):
         contigs = rng.choice([None, ["1", "2", "10", "X"], ["10", "X", "2", "1"]])
         config = rng.choice(["scheme", "names", "inferred"])
         n = rng.choice([0, 1, 3, 4, 5, 7])
+        # (positions of any size: beyond 2**53 neighbouring integers are one and the same double)
+        starts = [5, 9, 10, 100, 1000] if rng.random() < 0.8 else [2 ** 53, 2 ** 53 + 1, 2 ** 53 + 2, 2 ** 63, 2 ** 63 + 1, 7]
         specs = [(rng.choice(["T1", "T2"]), rng.choice(["N1", "N2", None]), rng.choice(["1", "2", "10", "X"]),
-                  rng.choice([5, 9, 10, 100, 1000]), rng.choice([0, 1, 10])) for _ in range(n)]
+                  rng.choice(starts), rng.choice([0, 1, 10])) for _ in range(n)]
+        refused = rng.choice([None, None, "layout", "contig" if contigs else "layout"]) if config in ("inferred", "names") else None
         canon = None
         for cap in sorted({1, 2, 3, max(1, n), n + 1}):
             out.evaluations += 1
             added = [(t, nn, c, s, s + d) for (t, nn, c, s, d) in specs]
             rng.shuffle(added)
-            where, texts, fails, keyseq = eval_maf(order, contigs, config, cap, added, canon)
+            where, texts, fails, keyseq = eval_maf(order, contigs, config, cap, added, canon, refused_first=refused)
             out.failures += fails
             if keyseq is None:
                 continue
@@ -818,7 +835,9 @@ def replay_case(ctx, failure):
         print("MAF sorter: order=%s contigs=%s codec=%s capacity=%d%s; %d records added as (tumor, normal, chr, start, end): %s" % (
             order, contigs, config, cap, "" if route is None else " (order, contigs) supplied through route %r" % route, len(specs), [list(sp) for sp in specs]))
         with tempfile.TemporaryDirectory() as tmp:
-            where, texts, fails, keyseq = eval_maf(order, contigs, config, cap, specs, canon, route, tmp)
+            where, texts, fails, keyseq = eval_maf(order, contigs, config, cap, specs, canon, route, tmp, refused_first=failure.get("refused_first"))
+        if failure.get("refused_first"):
+            print("before them the caller offered a record the key function refuses (%s) and caught the error" % failure["refused_first"])
         if texts is None:
             print("implementation: %s" % fails[0]["what"])
         else:
